@@ -1,13 +1,13 @@
 #!/bin/sh
 # runs every claimed check (quick tier) on the current tree; regenerates all evidence files
-cd /verif
+cd "$(dirname "$0")"
 for p in $(python3 -c "import json;print(' '.join(c['property_id'] for c in json.load(open('MANIFEST.json'))['checks']))"); do
   ./check $p --tier ${1:-quick} 2>/dev/null | grep -v "^KNOWN-FINDING" | tail -2
 done
 python3-vt - <<'PY'
 import json, jsonschema, glob
 sch = json.load(open('/root/.vp/EVIDENCE.schema.json'))
-for f in sorted(glob.glob('/verif/evidence/C*.json')):
+for f in sorted(glob.glob('evidence/C*.json')):
     e = json.load(open(f))
     try:
         jsonschema.validate(e, sch)
